@@ -6,6 +6,7 @@ package app
 // transition instants come from exact rational arithmetic on the VoD reference.
 
 import (
+	"bytes"
 	"fmt"
 	"regexp"
 	"sort"
@@ -271,6 +272,30 @@ func TestVerifC04(t *testing.T) {
 						} else if r.vCrashed() {
 							site, val := vPanicSite(srv.livesimHandlerFunc, "GET", u, nil)
 							rep.Violate("C04.404", "not-404:unknown-rep:panic:"+site, fmt.Sprintf("%s: handler crashed: %s", u, val), map[string]any{"url": u})
+						}
+					}
+				}
+			}
+			// timeoffset_X shifts the server's clock by X seconds: the answer at t is the answer without it at t + X*1000 ms
+			for _, x := range []string{"1.001", "0.001", "2.5", "-1.001", "0.3", "1.005", "4.35", "-0.007", "1.015", "2.675", "8.115"} {
+				var ms int64
+				neg := strings.HasPrefix(x, "-")
+				ip, fp, _ := strings.Cut(strings.TrimPrefix(x, "-"), ".")
+				a, _ := strconv.ParseInt(ip, 10, 64)
+				b, _ := strconv.ParseInt((fp + "000")[:3], 10, 64)
+				ms = a*1000 + b
+				if neg {
+					ms = -ms
+				}
+				for _, t := range []int64{11_999 - ms, 12_000 - ms, 12_001 - ms, 72_000 - ms, 82_000 - ms} {
+					for _, name := range []string{"V300/5.m4s", "A48/5.m4s", "Manifest.mpd"} {
+						u1 := fmt.Sprintf("/livesim2/timeoffset_%s/testpic_2s/%s?nowMS=%d", x, name, t)
+						u2 := fmt.Sprintf("/livesim2/testpic_2s/%s?nowMS=%d", name, t+ms)
+						r1, r2 := vGet(srv, u1), vGet(srv, u2)
+						rep.Hit("C04.mono")
+						rep.AddExecs(2)
+						if r1.Code != r2.Code || (r1.Code == 200 && !bytes.Equal(r1.Body, r2.Body)) {
+							rep.Violate("C04.avail", "timeoffset-not-a-clock-shift", fmt.Sprintf("%s answers %d %q, %s answers %d %q", u1, r1.Code, vTrim(r1.Body), u2, r2.Code, vTrim(r2.Body)), map[string]any{"url": u1, "plain": u2})
 						}
 					}
 				}
